@@ -216,7 +216,7 @@ def gen(ctx):
         sc = [float(rng.randrange(levels)) for _ in range(n)]
         lab = [1 if rng.random() < 0.7 else 0 for _ in range(n)]
         thr = rng.choice(thrs)
-        via = rng.choice(["_update_labels", "_update_labels", "linear", "series"])
+        via = rng.choice(["_update_labels", "_update_labels", "linear", "series", "series-int", "series-float", "array-int", "array-float"])
         cases.append({"fn": "labels", "scores": sc, "labels": lab, "desc": rng.random() < 0.5 if via != "linear" else rng.random() < 0.5,
                       "thr": thr, "via": via, "tags": ["labels", via, "thr=" + thr]})
     # thresholds hit exactly by (D+1)/T: t targets on top, d decoys right below
@@ -274,6 +274,14 @@ def _impl_labels(c):
         r = dataset._update_labels(sc, tg, thr, c["desc"])
     elif via == "series":
         r = dataset._update_labels(pd.Series(sc), pd.Series(tg), thr, c["desc"])
+    elif via == "series-int":         # the label column of a table as pandas reads it: 0/1 integers
+        r = dataset._update_labels(pd.Series(sc), pd.Series([int(v) for v in tg]), thr, c["desc"])
+    elif via == "series-float":
+        r = dataset._update_labels(pd.Series(sc), pd.Series([float(v) for v in tg]), thr, c["desc"])
+    elif via == "array-int":          # the labellings tdc itself accepts: 0/1 integers, 0.0/1.0 floats
+        r = dataset._update_labels(sc, np.array([int(v) for v in tg]), thr, c["desc"])
+    elif via == "array-float":
+        r = dataset._update_labels(sc, np.array([float(v) for v in tg]), thr, c["desc"])
     else:
         n = len(sc)
         df = pd.DataFrame({"target": tg, "spectrum": list(range(n)), "peptide": ["P%d" % j for j in range(n)],
